@@ -170,6 +170,7 @@ func corpusMain(args []string) error {
 	gocache := fs.String("gocache", "", "GOCACHE to use")
 	deadline := fs.Duration("deadline", 20*time.Second, "per (scenario, option set) run deadline")
 	verifTag := fs.Bool("verif", false, "peg was built with -tags verif: record machine-step events")
+	raceBuild := fs.Bool("race", false, "build the batch binary with the race detector")
 	_ = fs.Parse(args)
 	paths, _ := filepath.Glob(*scenGlob)
 	if len(paths) == 0 {
@@ -267,7 +268,11 @@ func corpusMain(args []string) error {
 		// go build stops scheduling new work after some failures, hence the loop
 		for start := 0; start < len(list); start += 400 {
 			end := min(start+400, len(list))
-			c := exec.Command("go", append([]string{"build", "-gcflags=-l -N"}, list[start:end]...)...)
+			bargs := []string{"build", "-gcflags=-l -N"}
+			if *raceBuild {
+				bargs = []string{"build", "-race"}
+			}
+			c := exec.Command("go", append(bargs, list[start:end]...)...)
 			c.Dir = croot
 			c.Env = goEnv(*gocache)
 			outb, err := c.CombinedOutput()
@@ -324,7 +329,11 @@ func corpusMain(args []string) error {
 		_ = os.MkdirAll(bdir, 0o755)
 		_ = os.WriteFile(filepath.Join(bdir, "reg.go"), []byte(b.String()), 0o644)
 		_ = os.WriteFile(filepath.Join(bdir, "main.go"), []byte(batchMain), 0o644)
-		c := exec.Command("go", "build", "-gcflags=-l -N", "-o", filepath.Join(*work, "batch.bin"), "./batch")
+		largs := []string{"build", "-gcflags=-l -N", "-o", filepath.Join(*work, "batch.bin"), "./batch"}
+		if *raceBuild {
+			largs = []string{"build", "-race", "-o", filepath.Join(*work, "batch.bin"), "./batch"}
+		}
+		c := exec.Command("go", largs...)
 		c.Dir = croot
 		c.Env = goEnv(*gocache)
 		if outb, err := c.CombinedOutput(); err != nil {
@@ -425,6 +434,17 @@ func runWorker(bin, sdir string, todo []*unit, deadline time.Duration) int {
 		}
 	}
 	err := c.Wait()
+	if bytes.Contains(stderr.Bytes(), []byte("DATA RACE")) {
+		// the race detector reports at the end of the process: attribute to every unit of this slice
+		for _, u := range todo[:done] {
+			if u.fate == "" {
+				u.fate, u.note = "race", trunc(stderr.String(), 1500)
+			}
+		}
+		if done == len(todo) {
+			return done
+		}
+	}
 	if done == len(todo) && err == nil {
 		return done
 	}
